@@ -21,7 +21,7 @@ type verifRTok struct {
 var verifReserved = []string{
 	"ALL", "AND", "ANY", "ARRAY", "AS", "ASC", "ASSERT_ROWS_MODIFIED", "AT", "BETWEEN", "BY", "CASE", "CAST", "COLLATE", "CONTAINS", "CREATE",
 	"CROSS", "CUBE", "CURRENT", "DEFAULT", "DEFINE", "DESC", "DISTINCT", "ELSE", "END", "ENUM", "ESCAPE", "EXCEPT", "EXCLUDE", "EXISTS", "EXTRACT",
-	"FALSE", "FETCH", "FOLLOWING", "FOR", "FROM", "FULL", "GROUP", "GROUPING", "GROUPS", "HASH", "HAVING", "IF", "IGNORE", "IN", "INNER", "INTERSECT",
+	"FALSE", "FETCH", "FOLLOWING", "FOR", "FROM", "FULL", "GRAPH_TABLE", "GROUP", "GROUPING", "GROUPS", "HASH", "HAVING", "IF", "IGNORE", "IN", "INNER", "INTERSECT",
 	"INTERVAL", "INTO", "IS", "JOIN", "LATERAL", "LEFT", "LIKE", "LIMIT", "LOOKUP", "MERGE", "NATURAL", "NEW", "NO", "NOT", "NULL", "NULLS", "OF",
 	"ON", "OR", "ORDER", "OUTER", "OVER", "PARTITION", "PRECEDING", "PROTO", "RANGE", "RECURSIVE", "RESPECT", "RIGHT", "ROLLUP", "ROWS", "SELECT",
 	"SET", "SOME", "STRUCT", "TABLESAMPLE", "THEN", "TO", "TREAT", "TRUE", "UNBOUNDED", "UNION", "UNNEST", "USING", "WHEN", "WHERE", "WINDOW",
@@ -428,6 +428,49 @@ func verifHarness_C14_uni(form, long int) {
 		x = open + "a\\u" + verifBytes(4) + close
 	}
 	verifC14(x)
+}
+
+// keyword vocabulary: every reserved keyword of the documentation and its near
+// misses (one letter appended / removed), in upper, lower and symbolic case,
+// alone and after "a." (where it must be an identifier)
+func verifHarness_C14_kw(variant, afterDot int) {
+	k := verifChoice(len(verifReserved))
+	for i := range verifReserved {
+		if k == i {
+			k = i
+			break
+		}
+	}
+	w := verifReserved[k]
+	switch variant {
+	case 1:
+		w += "X"
+	case 2:
+		w = w[:len(w)-1]
+	}
+	mode := verifChoice(3)
+	s := ""
+	for i := 0; i < len(w); i++ {
+		up := w[i : i+1]
+		lo := up
+		if 'A' <= w[i] && w[i] <= 'Z' {
+			lo = string([]byte{w[i] + 32})
+		}
+		switch {
+		case mode == 0:
+			s += up
+		case mode == 1:
+			s += lo
+		case i < 3:
+			s += verifSel(verifBool(), up, lo)
+		default:
+			s += lo
+		}
+	}
+	if afterDot == 1 {
+		s = "a." + s
+	}
+	verifC14(s + " 1")
 }
 
 func verifC14(x string) {
